@@ -9,4 +9,3 @@ func pending(c *Ctx, name string) {
 	pendingRules[name] = true
 	c.R.Notes = append(c.R.Notes, "rule "+name+" is not implemented yet")
 }
-
